@@ -39,6 +39,7 @@ ASSUMPTIONS = [
 ]
 
 KNOWN_BRACE = 'C05-brace-override-keeps-old'
+KNOWN_UNION2 = 'C05-union-second-initializer'
 
 # ============================================================================================ types
 
@@ -262,6 +263,10 @@ class Gen:
         r = self.rng.random()
         if depth <= 0 or r < 0.30:
             return self.scalar()
+        if r < 0.40:
+            # arrays a string literal can initialise
+            return Arr(self.rng.choice([BYNAME['char'], BYNAME['char'], BYNAME['unsigned char'], BYNAME['signed char'], BYNAME['unsigned short'],
+                                        BYNAME['int'], BYNAME['unsigned']]), self.rng.choice([1, 2, 3, 4, 6]))
         if r < 0.55:
             return Arr(self.ty(depth - 1), self.rng.choice([1, 2, 2, 3, 3, 4, 5]))
         return self.agg(depth, union=r > 0.85)
@@ -548,7 +553,7 @@ class Gen:
                 if hi < 0:
                     break
                 a = rng.randint(0, hi)
-                if isinstance(t.elem, Sc) and rng.random() < 0.2 and a < hi:
+                if isinstance(t.elem, Sc) and rng.random() < 0.4 and a < hi:
                     b = rng.randint(a, hi)
                     toks.append(('[..', a, b))
                     paths = [q + [k] for q in paths for k in range(a, b + 1)]
@@ -580,6 +585,8 @@ class Gen:
         cur = [self.first_sub(t, top, [])] if self.first_sub(t, top, []) is not None else None
         nleaves = self.count_leaves(t)
         target = rng.choice([0, 1, 2, nleaves // 2, nleaves, nleaves, nleaves + 1]) if rng.random() < 0.5 else rng.randint(0, min(nleaves + 1, 9))
+        if isinstance(t, Agg) and t.union:
+            target = 1 if rng.random() < 0.93 else 2        # `{}` on a union is a GNU extension chibicc rejects; a second initializer is a known finding
         items = 0
         pdes = rng.choice([0.0, 0.0, 0.15, 0.4, 0.8])
         seen_paths = []
@@ -633,6 +640,8 @@ class Gen:
             toks.append(','); self.features.add('trailing-comma')
         if isinstance(t, (Agg, Arr)) and items < nleaves:
             self.features.add('short-list')
+        if isinstance(t, Agg) and t.union and items >= 2:
+            notes.add('union-multi-init')
         return toks + ['}']
 
     def touched_prefix(self, seen, p):
@@ -699,9 +708,9 @@ def case_source(k, case, size, for_gcc):
     flex = isinstance(t, Agg) and t.flex
     lines = list(defs)
     lines.append(f"static {decl(t, 's%d' % k)} = {init};")
-    body = [f"dump({k}, 's', &s{k}, {size});"]
+    body = [f"dump({k}, 's', &s{k}, {size});", f'printf("Z {k} s %ld\\n", (long)sizeof(s{k}));']
     if not (flex and for_gcc):        # gcc: "non-static initialization of a flexible array member"
-        body = [f"{decl(t, 'a%d' % k)} = {init};"] + body + [f"dump({k}, 'a', &a{k}, {size});"]
+        body = [f"{decl(t, 'a%d' % k)} = {init};"] + body + [f"dump({k}, 'a', &a{k}, {size});", f'printf("Z {k} a %ld\\n", (long)sizeof(a{k}));']
     lines.append(f"static void case{k}(void) {{ {' '.join(body)} }}")
     return lines
 
@@ -727,6 +736,9 @@ def parse_dumps(out):
     res = {}
     for line in out.splitlines():
         w = line.split()
+        if len(w) == 4 and w[0] == 'Z':
+            res[(int(w[1]), 'sizeof_' + w[2])] = int(w[3])
+            continue
         if len(w) < 4 or w[0] != 'D':
             continue
         n = int(w[3])
@@ -966,10 +978,13 @@ class Runner:
                 return
             if parse_ok:
                 corr.disagreements.append({'kind': 'parse', 'input': inp, 'impl': 'rejected: ' + str(crej[k]), 'model': m['parse']})
-            elif k not in grej and spec_ok:
+            if k not in grej and spec_ok:
                 # both chibicc and its model reject something gcc and the specification accept
                 rc, o, e = self.pedantic(c)
-                if rc == 0:
+                if rc == 0 and 'union-multi-init' in c['notes'] and "expected '}'" in str(crej[k]):
+                    self.violation({'what': 'a union initializer list with a second initializer is rejected', 'input': inp,
+                                    'expected': 'accepted (gcc -std=c11 -pedantic-errors accepts it)', 'got': str(crej[k]).strip()}, c, KNOWN_UNION2)
+                elif rc == 0:
                     corr.violations.append({'what': 'a valid C11 initializer is rejected', 'input': inp, 'expected': 'accepted (gcc -std=c11 -pedantic-errors accepts it)',
                                             'got': str(crej[k])})
                 else:
@@ -984,6 +999,22 @@ class Runner:
             return
         cs = symbolize(*cd[(k, 's')], strings)
         ca = symbolize(*cd[(k, 'a')], strings) if (k, 'a') in cd else None
+        # ---- sizeof after the initializer (unknown bound = largest index + 1; flexible member: chibicc enlarges the type)
+        msize = int(re.match(r'ok size=(-?\d+)', m['parse']).group(1))
+        for kind in ('s', 'a'):
+            got = cd.get((k, 'sizeof_' + kind))
+            if got is not None and got != msize:
+                corr.disagreements.append({'kind': 'sizeof', 'input': inp, 'impl': got, 'model': msize})
+        flexible = isinstance(t, Agg) and t.flex
+        gsz = gd.get((k, 'sizeof_s')) if gd else None
+        if gsz is not None and not flexible and k not in grej:
+            for kind in ('s', 'a'):
+                got = cd.get((k, 'sizeof_' + kind))
+                if got is not None and got != gsz:
+                    corr.violations.append({'what': 'sizeof the initialised object differs from gcc (array of unknown bound: largest index + 1)',
+                                            'input': inp, 'expected': gsz, 'got': got,
+                                            'replay_case': {'line': c['line'], 'ctext': c['ctext'], 'cdefs': c['cdefs']}})
+                    break
         mask = list(bytes.fromhex(m.get('cover', ''))) if m.get('cover') else [255] * len(cs)
         if len(mask) != len(cs):
             mask = (mask + [0] * len(cs))[:len(cs)]
